@@ -4,7 +4,7 @@
 //   ordstrs <w> <a> <b>      b has no NUL unit) + raw IsLess/IsGreater with both orEqual flags.
 //                            -> "<lt le gt ge eq ne> <L0 L1 G0 G1>"   (ordstrs: the model treats units as signed char)
 //   ordval  <A> <B>          six operators of Value          -> "<lt le gt ge eq ne>"
-//   ordsortv <asc> <vals>    Value array  += each; Value::Sort(asc)          -> value tokens in storage order
+//   ordsortv <asc> <vals>    Value array  += each; Value::Sort(asc)          -> value tokens in storage order + comparison table of the result
 //   ordsorts <asc> <w> <strs> Array<String<w>>::Sort(asc)                    -> string tokens
 //   ordsorto <asc> <ops>     Value object, ops "+key=nat" / "!key", Value::Sort(asc)
 //                            -> "<slots before> <slots after> <lookups-ok | lookup-fail:...>"  slots: key=nat or "~" (removed slot)
@@ -215,13 +215,22 @@ static std::string doSortV(bool asc, const std::string &list, bool through_array
         arr.Sort(asc);
     }
     const auto *a = arr.GetArray();
-    if (a->Size() == 0) return "-";
+    if (a->Size() == 0) return "- - -";
     std::string out;
     for (SizeT i = 0; i < a->Size(); i++) {
         if (i) out += ',';
         out += show_value(a->First()[i]);
     }
-    return out;
+    // the comparison table of the result, with the operators Sort itself used
+    std::string table;
+    for (SizeT i = 0; i < a->Size(); i++)
+        for (SizeT j = i + 1; j < a->Size(); j++)
+            table += ((asc ? (a->First()[j] < a->First()[i]) : (a->First()[j] > a->First()[i])) ? '1' : '0');
+    std::string chain;
+    for (SizeT i = 0; i < a->Size(); i++)
+        for (SizeT j = i + 1; j < a->Size(); j++)
+            chain += ((asc ? (a->First()[i] <= a->First()[j]) : (a->First()[i] >= a->First()[j])) ? '1' : '0');
+    return out + " " + (table.empty() ? "-" : table) + " " + (chain.empty() ? "-" : chain);
 }
 
 template <typename Char_T>
@@ -236,13 +245,21 @@ static std::string doSortS(bool asc, const std::string &list) {
         }
     }
     arr.Sort(asc);
-    if (arr.Size() == 0) return "-";
+    if (arr.Size() == 0) return "- - -";
     std::string out;
     for (SizeT i = 0; i < arr.Size(); i++) {
         if (i) out += ',';
         out += show_str(arr.First()[i].First(), arr.First()[i].Length());
     }
-    return out;
+    std::string table;
+    for (SizeT i = 0; i < arr.Size(); i++)
+        for (SizeT j = i + 1; j < arr.Size(); j++)
+            table += ((asc ? (arr.First()[j] < arr.First()[i]) : (arr.First()[j] > arr.First()[i])) ? '1' : '0');
+    std::string chain;
+    for (SizeT i = 0; i < arr.Size(); i++)
+        for (SizeT j = i + 1; j < arr.Size(); j++)
+            chain += ((asc ? (arr.First()[i] <= arr.First()[j]) : (arr.First()[i] >= arr.First()[j])) ? '1' : '0');
+    return out + " " + (table.empty() ? "-" : table) + " " + (chain.empty() ? "-" : chain);
 }
 
 struct KeyOp {
@@ -334,7 +351,15 @@ static std::string doSortO(bool asc, const std::string &list) {
     const std::string before = slots();
     v.Sort(asc);
     const auto *o   = v.GetObject();
-    std::string out = before + " " + slots();
+    std::string table;
+    for (SizeT i = 0; i < o->Size(); i++)
+        for (SizeT j = i + 1; j < o->Size(); j++)
+            table += ((asc ? (o->First()[j] < o->First()[i]) : (o->First()[j] > o->First()[i])) ? '1' : '0');
+    std::string chain;
+    for (SizeT i = 0; i < o->Size(); i++)
+        for (SizeT j = i + 1; j < o->Size(); j++)
+            chain += ((asc ? (o->First()[i] <= o->First()[j]) : (o->First()[i] >= o->First()[j])) ? '1' : '0');
+    std::string out = before + " " + slots() + " " + (table.empty() ? "-" : table) + " " + (chain.empty() ? "-" : chain);
     // lookups remain correct
     std::vector<std::pair<std::vector<uint64_t>, uint64_t>> live;
     std::vector<std::vector<uint64_t>>                      dead;
@@ -395,7 +420,15 @@ static std::string doSortH(bool asc, const std::string &list) {
     };
     const std::string before = slots();
     h.Sort(asc);
-    std::string out = before + " " + slots();
+    std::string table;
+    for (SizeT i = 0; i < h.Size(); i++)
+        for (SizeT j = i + 1; j < h.Size(); j++)
+            table += ((asc ? (h.First()[j] < h.First()[i]) : (h.First()[j] > h.First()[i])) ? '1' : '0');
+    std::string chain;
+    for (SizeT i = 0; i < h.Size(); i++)
+        for (SizeT j = i + 1; j < h.Size(); j++)
+            chain += ((asc ? (h.First()[i] <= h.First()[j]) : (h.First()[i] >= h.First()[j])) ? '1' : '0');
+    std::string out = before + " " + slots() + " " + (table.empty() ? "-" : table) + " " + (chain.empty() ? "-" : chain);
     std::vector<std::pair<std::vector<uint64_t>, uint64_t>> live;
     std::vector<std::vector<uint64_t>>                      dead;
     expected_content(ops, live, dead);
